@@ -554,10 +554,18 @@ func (w *W) exec(fr *frame, ci *cinstr) cont {
 		x := fr.get(&ci.ops[0])
 		p := x.ptr()
 		if p == nil {
-			if x.p != nil {
-				w.unsupported("FieldAddr through symbolic pointer")
+			if sp, ok := x.p.(*SymPtr); ok {
+				// element of an array/slice of structs at a symbolic (in-range) index:
+				// complete case split on the index
+				w.curSite = w.site(fr, ins)
+				i := w.concretize(sp.idx, "index of struct element")
+				p = &sp.base[i]
+			} else {
+				if x.p != nil {
+					w.unsupported("FieldAddr through symbolic pointer")
+				}
+				w.rtPanic(fr, ins, "invalid memory address or nil pointer dereference")
 			}
-			w.rtPanic(fr, ins, "invalid memory address or nil pointer dereference")
 		}
 		fr.regs[ci.dst] = mkPtr(&p.p.([]Value)[ins.Field])
 	case *ssa.Field:
